@@ -23,7 +23,7 @@ if str(VERIF) not in sys.path:
     sys.path.insert(0, str(VERIF))
 
 FORBIDDEN = re.compile(
-    r"\b(Admitted|admit|Axiom|Axioms|Parameter|Parameters|Conjecture|Hypothesis|Hypotheses|"
+    r"\b(Admitted|admit|Axiom|Axioms|Parameter|Parameters|Conjecture|Conjectures|"
     r"bypass_check|type-in-type|impredicative-set)\b|Unset\s+Guard|Unset\s+Positivity|"
     r"Unset\s+Universe\s+Checking|Admit\s+Obligations")
 
@@ -124,15 +124,24 @@ def audit_assumptions(pid):
 
 
 def audit_forbidden():
+    """forbidden declarations anywhere in the development; Variable/Hypothesis/Context only outside sections"""
     bad = []
+    decl_re = re.compile(r"^\s*(Variable|Variables|Hypothesis|Hypotheses|Context)\b")
     for p in COQ.rglob("*.v"):
         if "Cases" in p.parts:
             continue
         txt = p.read_text()
-        txt = re.sub(r"\(\*.*?\*\)", " ", txt, flags=re.S)
+        txt = re.sub(r"\(\*.*?\*\)", lambda m: "\n" * m.group(0).count("\n"), txt, flags=re.S)
+        depth = 0
         for i, line in enumerate(txt.splitlines(), 1):
+            if re.match(r"^\s*(Section|Module)\s+\w+", line) and ":=" not in line:
+                depth += 1
+            elif re.match(r"^\s*End\s+\w+\s*\.", line):
+                depth = max(0, depth - 1)
             if FORBIDDEN.search(line):
                 bad.append("%s:%d: %s" % (p.relative_to(COQ), i, line.strip()[:100]))
+            elif decl_re.match(line) and depth == 0:
+                bad.append("%s:%d: (outside a section) %s" % (p.relative_to(COQ), i, line.strip()[:100]))
     return bad
 
 
